@@ -54,7 +54,8 @@ def run(chk, replay=None):
                 "verdict of each pair; every pair is replayed on scripts DECODED from bytes rendered from the spec's CBOR "
                 "token sequence (minimal, non-minimal integer/list heads, indefinite lists) through NativeScript.Evaluate "
                 "under five order-isomorphic maps onto uint64 and through the native-script rule of the Allegra, Conway and "
-                "Dijkstra rule lists on signed transactions (other eras, maps, and the whole rule list rule by rule on a "
+                "Dijkstra rule lists on signed transactions (all three for every pair of depth <= 2 scripts in the quick tier, otherwise "
+                "one of the three in rotation; other eras, maps, and the whole rule list rule by rule on a "
                 "sample); Hash() is compared with Blake2b-224(0x00 ++ bytes); a case is one (level, era, script, context, "
                 "encoding, map) tuple, all non-trivial")
     chk.assumptions = [
@@ -71,9 +72,11 @@ def run(chk, replay=None):
     thorough = chk.tier == "thorough"
     cfg = "NativeScriptThorough.cfg" if thorough else "NativeScript.cfg"
     r = vlib.run_tlc("ledger/NativeScript", cfg=cfg, timeout=900 if thorough else 240, workers="auto",
-                     deadlock=False, extra=["-dump", "states"], heap="8g" if thorough else None)
+                     deadlock=False, extra=["-dump", "states"], heap="8g" if thorough else None, coverage=thorough)
     vlib.tlc_must_pass(r, "NativeScript")
     chk.add_tlc(cfg, r)
+    if thorough:
+        chk.extra["tlc_zero_coverage"] = r.coverage_zero
     rows, nctx = _pairs(r)
     chk.extra["c29_scripts"] = len(rows)
     chk.extra["c29_contexts"] = nctx
@@ -101,8 +104,14 @@ def _binding_selftest(chk, drv, rows, ctx, d):
     probe = vlib.Check(chk.pid, chk.tier, chk.seed)
     probe.findings = []
     vlib.run_driver(probe, drv, [ctx, path], timeout=300)
+    for _, _, rp in probe.violations:  # the probe's replay files are not findings
+        if rp and os.path.exists(rp):
+            os.remove(rp)
     if len(picked) == 0 or len(probe.violations) < len(picked) * 6:
         raise vlib.MachineryError("binding self-test: %d flipped scripts, %d disagreements" % (len(picked), len(probe.violations)))
-    bad = [k for k, _, _ in probe.violations if ":keys=" in k and not re.search(r"keys=\w+:start=", k)]
+    names = {p["name"] for p in picked}
+    stray = [k for k, _, _ in probe.violations if not any(":s=%s:" % n in k for n in names)]
+    if stray:
+        raise vlib.MachineryError("binding self-test: disagreement outside the flipped scripts: %s" % stray[0])
     chk.extra["binding_selftest"] = "%d flipped verdicts, %d disagreements reported, all on the flipped pairs" % (
         len(picked), len(probe.violations))
